@@ -73,6 +73,25 @@ type loopObj struct {
 	peerConns []net.Conn
 }
 
+// owedReads: stream reads in flight whose bytes have all arrived (the peer wrote them, no completed read has taken them).
+func (lw *loopWorld) owedReads(ids []int, settled bool) []string {
+	var owed []string
+	if !settled {
+		return nil
+	}
+	for _, id := range ids {
+		op := lw.ops[id]
+		o := lw.objs[op.obj]
+		if op.kind != "read" || op.need <= 0 || o == nil || len(o.sab) != 0 || (o.kind != "tcp" && o.kind != "adapter" && o.kind != "fifo") {
+			continue
+		}
+		if o.rxOff-o.rxDone >= op.need && o.peerOpenForWrites() {
+			owed = append(owed, strconv.Itoa(id))
+		}
+	}
+	return owed
+}
+
 // peerOpenForWrites: the peer end is still there (after a peer close / reset the bytes it had written may be gone with it).
 func (o *loopObj) peerOpenForWrites() bool {
 	if o.kind == "fifo" {
@@ -977,23 +996,21 @@ func (lw *loopWorld) finish() {
 		settled = doneCount() == before
 	}
 	var owed []string
-	for _, id := range pendingOps() {
-		if !settled {
+	for attempt := 0; attempt < 2; attempt++ {
+		owed = nil
+		if attempt == 1 {
+			for i := 0; i < 3; i++ {
+				time.Sleep(15 * time.Millisecond)
+				lw.exec([]string{"poll"})
+			}
+		}
+		owed = lw.owedReads(pendingOps(), settled)
+		if len(owed) == 0 {
 			break
 		}
-		op := lw.ops[id]
-		o := lw.objs[op.obj]
-		if op.kind != "read" || op.need <= 0 || o == nil || len(o.sab) != 0 || (o.kind != "tcp" && o.kind != "adapter" && o.kind != "fifo") {
-			continue
-		}
-		if o.rxOff-o.rxDone >= op.need && o.peerOpenForWrites() {
-			owed = append(owed, strconv.Itoa(id))
-		}
 	}
-	if len(owed) > 0 {
-		lw.ev("ret stuck=%s", strings.Join(owed, ","))
-		return
-	}
+	// (they are reported with the verdict at the end; the help below still runs, so that what such an operation finally delivers
+	// is seen by the data clauses too)
 	idle, last := 0, doneCount()
 	for round := 0; round < 600 && idle < 12; round++ {
 		ids := pendingOps()
@@ -1041,28 +1058,51 @@ func (lw *loopWorld) finish() {
 		}
 		lw.exec([]string{"poll"})
 	}
+	// an operation counts as stuck only if it is still in flight, and ready, after a few more polls (a timer armed by a callback of
+	// the last round may come due between that round's poll and this verdict when the machine is busy)
 	var stuck []string
-	for _, id := range pendingOps() {
-		op := lw.ops[id]
-		ready := false
-		switch op.kind {
-		case "post":
-			ready = true
-		case "timer":
-			ready = time.Now().After(op.t0.Add(op.delay + 5*time.Millisecond))
-		case "read":
-			o := lw.objs[op.obj]
-			ready = waitReady(lw.rawFd(o), unix.POLLIN, 0) != 0
-			if o.kind == "listener" && len(o.sab) == 0 && len(o.peerConns) > len(o.accepted)+o.stolen {
-				// the kernel completed more connections to this listener than accepts have handed out (the backlog is far
-				// larger than a script): one of them belongs to this accept, wherever it went
+	for attempt := 0; attempt < 3; attempt++ {
+		stuck = nil
+		for _, id := range pendingOps() {
+			op := lw.ops[id]
+			ready := false
+			switch op.kind {
+			case "post":
 				ready = true
+			case "timer":
+				ready = time.Now().After(op.t0.Add(op.delay + 5*time.Millisecond))
+			case "read":
+				o := lw.objs[op.obj]
+				ready = waitReady(lw.rawFd(o), unix.POLLIN, 0) != 0
+				if o.kind == "listener" && len(o.sab) == 0 && len(o.peerConns) > len(o.accepted)+o.stolen {
+					// the kernel completed more connections to this listener than accepts have handed out (the backlog is far
+					// larger than a script): one of them belongs to this accept, wherever it went
+					ready = true
+				}
+			case "write":
+				ready = waitReady(lw.rawFd(lw.objs[op.obj]), unix.POLLOUT, 0) != 0
 			}
-		case "write":
-			ready = waitReady(lw.rawFd(lw.objs[op.obj]), unix.POLLOUT, 0) != 0
+			if ready {
+				stuck = append(stuck, strconv.Itoa(id))
+			}
 		}
-		if ready {
-			stuck = append(stuck, strconv.Itoa(id))
+		if len(stuck) == 0 {
+			break
+		}
+		if attempt < 2 {
+			for i := 0; i < 3; i++ {
+				time.Sleep(15 * time.Millisecond)
+				lw.exec([]string{"poll"})
+			}
+		}
+	}
+	for _, id := range owed {
+		dup := false
+		for _, x := range stuck {
+			dup = dup || x == id
+		}
+		if !dup {
+			stuck = append(stuck, id)
 		}
 	}
 	if len(stuck) == 0 {
